@@ -355,6 +355,53 @@ def _digit_or(x):
     return SB(z3.Or([z3.And(e >= 48, e <= 57) if not isinstance(e, int) else z3.BoolVal(48 <= e <= 57) for e in x.els] or [z3.BoolVal(False)]))
 
 
+_BLANKS = {9, 10, 11, 12, 13, 28, 29, 30, 31, 32, 133, 160, 95}          # what int()/float() strip or skip: white space, and '_' between digits
+_FLOAT_WORDS = set(b"eEiInNfFaAtTyY")                                     # exponents, inf, nan, infinity
+
+
+def _number_text(x, is_float):
+    """does int(text) / float(text) accept this symbolic text?  The accepted language modelled is [+-]?digits for int and [+-]?(digits with at most one '.') with
+    at least one digit for float; text that may hold a blank, '_', an exponent or inf/nan spelling ends the path as unsupported rather than guessing"""
+    els = [e if not isinstance(e, int) else z3.IntVal(e) for e in x.els]
+    if not els:
+        return False
+    odd = _BLANKS | (_FLOAT_WORDS if is_float else set())
+    if bool(SB(z3.Or([_in_set(e, odd) for e in els]))):
+        raise Unsupported("%s() of symbolic text with a blank, underscore%s" % ("float" if is_float else "int", ", exponent or inf/nan" if is_float else ""))
+    dig = [z3.And(e >= 48, e <= 57) for e in els]
+    dot = [e == 46 for e in els]
+
+    def body(i0):
+        if i0 >= len(els):
+            return z3.BoolVal(False)
+        if not is_float:
+            return z3.And(dig[i0:])
+        return z3.And([z3.Or(dig[i], dot[i]) for i in range(i0, len(els))] + [z3.Or(dig[i0:]), z3.Sum([z3.If(d, 1, 0) for d in dot[i0:]]) <= 1])
+    return bool(SB(z3.Or(body(0), z3.And(z3.Or(els[0] == 43, els[0] == 45), body(1)))))
+
+
+def _utf8_valid(els):
+    """z3 formula: the byte sequence is well-formed UTF-8 (Unicode 15 table 3-7)"""
+    els = [e if not isinstance(e, int) else z3.IntVal(e) for e in els]
+    n = len(els)
+    rng = lambda i, lo, hi: z3.And(els[i] >= lo, els[i] <= hi) if i < n else z3.BoolVal(False)
+    cont = lambda i: rng(i, 0x80, 0xBF)
+    valid = [None] * (n + 5)
+    for i in range(n, n + 5):
+        valid[i] = z3.BoolVal(i == n)
+    for i in range(n - 1, -1, -1):
+        valid[i] = z3.Or(
+            z3.And(els[i] < 0x80, valid[i + 1]),
+            z3.And(rng(i, 0xC2, 0xDF), cont(i + 1), valid[i + 2]),
+            z3.And(els[i] == 0xE0, rng(i + 1, 0xA0, 0xBF), cont(i + 2), valid[i + 3]),
+            z3.And(z3.Or(rng(i, 0xE1, 0xEC), rng(i, 0xEE, 0xEF)), cont(i + 1), cont(i + 2), valid[i + 3]),
+            z3.And(els[i] == 0xED, rng(i + 1, 0x80, 0x9F), cont(i + 2), valid[i + 3]),
+            z3.And(els[i] == 0xF0, rng(i + 1, 0x90, 0xBF), cont(i + 2), cont(i + 3), valid[i + 4]),
+            z3.And(rng(i, 0xF1, 0xF3), cont(i + 1), cont(i + 2), cont(i + 3), valid[i + 4]),
+            z3.And(els[i] == 0xF4, rng(i + 1, 0x80, 0x8F), cont(i + 2), cont(i + 3), valid[i + 4]))
+    return valid[0]
+
+
 def _hexval(e):
     return z3.If(e <= 57, e - 48, z3.If(e <= 70, e - 55, e - 87))
 
@@ -364,7 +411,7 @@ def _int(x=0, base=10):
         if x.concrete():
             return int(bytes(x.els), base)
         if base == 10:
-            if not bool(_digit_or(x)):
+            if not _number_text(x, False):
                 raise ValueError("invalid literal for int()")
             return Opaque("int", x)
         # int(text, base) raises ValueError on a digit outside the base; signs, blanks, '_' and radix prefixes are not modelled
@@ -393,7 +440,7 @@ def _float(x=0.0):
     if isinstance(x, SBy):
         if x.concrete():
             return float(bytes(x.els))
-        if not bool(_digit_or(x)):
+        if not _number_text(x, True):
             raise ValueError("could not convert to float")
         return Opaque("float", x)
     if isinstance(x, (SV, SI)):
@@ -423,6 +470,13 @@ def _str(x="", *a):
     if isinstance(x, SBy):
         if x.concrete():
             return str(bytes(x.els), *a)
+        enc = (a[0] if a else "utf-8").lower().replace("_", "-")
+        if len(a) > 1 or enc not in ("utf-8", "utf8", "ascii", "latin-1", "latin1", "iso-8859-1"):
+            raise Unsupported("str(symbolic bytes, %r)" % (a,))
+        if enc in ("utf-8", "utf8") and not bool(SB(_utf8_valid(x.els))):
+            raise UnicodeDecodeError("utf-8", b"", 0, 1, "invalid byte sequence (symbolic)")
+        if enc == "ascii" and not bool(SB(z3.And([e < 128 for e in x.els if not isinstance(e, int)] + [z3.BoolVal(all(e < 128 for e in x.els if isinstance(e, int)))]))):
+            raise UnicodeDecodeError("ascii", b"", 0, 1, "ordinal not in range(128) (symbolic)")
         return Opaque("str", x)
     return str(x, *a)
 
